@@ -307,7 +307,7 @@ func (e *Engine) BuildQuery(facts []*Term, goal *Term, solver string, lenBound b
 	// bit operations
 	needBits := false
 	for op := range q.ops {
-		if strings.HasPrefix(op, "band") || strings.HasPrefix(op, "bor") || strings.HasPrefix(op, "bxor") || op == "pow2" {
+		if strings.HasPrefix(op, "band") || strings.HasPrefix(op, "bor") || strings.HasPrefix(op, "bxor") || op == "pow2" || op == "bitval" {
 			needBits = true
 		}
 	}
@@ -546,33 +546,40 @@ func isParamName(n string) bool {
 func seqPreludeNoLits(s *Sort) string { return seqPrelude(s, nil) }
 
 func bitPrelude() string {
+	// Bit operations on bytes are uninterpreted symbols with bit-wise axioms over bitval(x, k) in {0,1}
+	// (k-th bit of x, 0 <= k < 8). The axioms are facts of 8-bit arithmetic; the selftest checks them by
+	// exhaustive enumeration.
 	var sb strings.Builder
-	sb.WriteString("(define-fun bit8 ((x Int) (k Int)) Int (mod (div x k) 2))\n")
+	sb.WriteString("(declare-fun bitval (Int Int) Int)\n")
+	sb.WriteString("(declare-fun pow2 (Int) Int)\n")
+	for k := 0; k < 64; k++ {
+		fmt.Fprintf(&sb, "(assert (= (pow2 %d) %s))\n", k, pow2(uint(k)).String())
+	}
+	sb.WriteString("(assert (forall ((k Int)) (! (=> (and (<= 0 k) (< k 64)) (and (<= 1 (pow2 k)) (<= (pow2 k) 9223372036854775808))) :pattern ((pow2 k)))))\n")
+	sb.WriteString("(assert (forall ((k Int)) (! (=> (and (<= 0 k) (< k 8)) (<= (pow2 k) 128)) :pattern ((pow2 k)))))\n")
+	sb.WriteString("(assert (forall ((x Int) (k Int)) (! (and (<= 0 (bitval x k)) (<= (bitval x k) 1)) :pattern ((bitval x k)))))\n")
+	sb.WriteString("(assert (forall ((k Int)) (! (= (bitval 0 k) 0) :pattern ((bitval 0 k)))))\n")
+	sb.WriteString("(assert (forall ((k Int) (m Int)) (! (=> (and (<= 0 k) (< k 8) (<= 0 m) (< m 8)) (= (bitval (pow2 k) m) (ite (= k m) 1 0))) :pattern ((bitval (pow2 k) m)))))\n")
+	// definition of bitval on bytes (for ground reasoning): bitval(x,k) = (x div 2^k) mod 2
+	sb.WriteString("(assert (forall ((x Int) (k Int)) (! (=> (and (<= 0 x) (< x 256) (<= 0 k) (< k 8)) (= (bitval x k) (mod (div x (pow2 k)) 2))) :pattern ((bitval x k)))))\n")
 	ops := map[string]string{
-		"band8":    "(ite (and (= (bit8 x %d) 1) (= (bit8 y %d) 1)) %d 0)",
-		"bor8":     "(ite (or (= (bit8 x %d) 1) (= (bit8 y %d) 1)) %d 0)",
-		"bxor8":    "(ite (distinct (bit8 x %d) (bit8 y %d)) %d 0)",
-		"bandnot8": "(ite (and (= (bit8 x %d) 1) (= (bit8 y %d) 0)) %d 0)",
+		"band8":    "(ite (and (= (bitval x k) 1) (= (bitval y k) 1)) 1 0)",
+		"bor8":     "(ite (or (= (bitval x k) 1) (= (bitval y k) 1)) 1 0)",
+		"bxor8":    "(ite (distinct (bitval x k) (bitval y k)) 1 0)",
+		"bandnot8": "(ite (and (= (bitval x k) 1) (= (bitval y k) 0)) 1 0)",
 	}
 	for _, name := range sortedKeys(ops) {
-		var parts []string
-		for k := 0; k < 8; k++ {
-			w := 1 << uint(k)
-			parts = append(parts, fmt.Sprintf(ops[name], w, w, w))
-		}
-		fmt.Fprintf(&sb, "(define-fun %s ((x Int) (y Int)) Int (+ %s))\n", name, strings.Join(parts, " "))
+		fmt.Fprintf(&sb, "(declare-fun %s (Int Int) Int)\n", name)
+		fmt.Fprintf(&sb, "(assert (forall ((x Int) (y Int)) (! (and (<= 0 (%s x y)) (< (%s x y) 256)) :pattern ((%s x y)))))\n", name, name, name)
+		fmt.Fprintf(&sb, "(assert (forall ((x Int) (y Int) (k Int)) (! (=> (and (<= 0 x) (< x 256) (<= 0 y) (< y 256) (<= 0 k) (< k 8)) (= (bitval (%s x y) k) %s)) :pattern ((bitval (%s x y) k)))))\n", name, ops[name], name)
 	}
+	sb.WriteString("(assert (forall ((x Int)) (! (=> (and (<= 0 x) (< x 256)) (and (= (bor8 x 0) x) (= (bor8 0 x) x) (= (band8 x 0) 0) (= (bxor8 x 0) x) (= (bandnot8 x 0) x))) :pattern ((bor8 x 0)) :pattern ((bor8 0 x)) :pattern ((band8 x 0)) :pattern ((bxor8 x 0)) :pattern ((bandnot8 x 0)))))\n")
+	// byte extensionality: two bytes with the same bits are equal (behind the marker beq8)
+	sb.WriteString("(declare-fun beq8 (Int Int) Bool)\n")
+	sb.WriteString("(assert (forall ((x Int) (y Int)) (! (=> (and (<= 0 x) (< x 256) (<= 0 y) (< y 256) (= (bitval x 0) (bitval y 0)) (= (bitval x 1) (bitval y 1)) (= (bitval x 2) (bitval y 2)) (= (bitval x 3) (bitval y 3)) (= (bitval x 4) (bitval y 4)) (= (bitval x 5) (bitval y 5)) (= (bitval x 6) (bitval y 6)) (= (bitval x 7) (bitval y 7))) (= x y)) :pattern ((beq8 x y)))))\n")
 	for _, name := range []string{"band64", "bor64", "bxor64", "bandnot64"} {
 		fmt.Fprintf(&sb, "(declare-fun %s (Int Int) Int)\n", name)
 	}
-	// pow2 for shift amounts 0..63
-	sb.WriteString("(define-fun pow2 ((k Int)) Int ")
-	for k := 0; k < 63; k++ {
-		fmt.Fprintf(&sb, "(ite (= k %d) %s ", k, pow2(uint(k)).String())
-	}
-	sb.WriteString(pow2(63).String())
-	sb.WriteString(strings.Repeat(")", 63))
-	sb.WriteString(")\n")
 	return sb.String()
 }
 
@@ -619,10 +626,14 @@ func relevantFacts(facts []*Term, goal *Term) []*Term {
 			work = append(work, n)
 		}
 	}
+	direct := map[string]bool{}
+	for _, n := range work {
+		direct[n] = true
+	}
 	for len(work) > 0 {
 		n := work[len(work)-1]
 		work = work[:len(work)-1]
-		if seenReach[n] || strings.Contains(n, "reach!hdr!") {
+		if seenReach[n] || (strings.Contains(n, "reach!hdr!") && !direct[n]) {
 			continue
 		}
 		seenReach[n] = true
